@@ -226,7 +226,7 @@ def _mk_triple(first):
                 tags[nm] = dict(TAGS["DA"], tag_name=nm, instance_id=iid, dimensions=[n, 0, 0], type_class=Array(n, DINT))
             d = scen.make_driver(target, cs=100, tags=tags)
             d._sequence = _advanced(65534 - [0, 3, 7][back])
-            for op in (first, concrete(o2), concrete(o3)):
+            for op in (first, concrete(o2), o3):
                 name = SEQ_OPS[op]
                 if name == "generic":
                     ok = d.generic_message(service=0x01, class_code=0x64, instance=1, connected=True)
@@ -257,7 +257,8 @@ def _mk_triple(first):
 
 
 for first in range(len(SEQ_OPS)):
-    REG.add(f"A/triples/first-{SEQ_OPS[first]}", _mk_triple(first), pre=lambda o2, o3, back: 0 <= o2 < len(SEQ_OPS) and 0 <= o3 < len(SEQ_OPS) and 0 <= back < 3, timeout=900, weight=2,
-            tier="quick" if SEQ_OPS[first] in ("frag1", "frag2", "frag3", "read2") else "thorough", funcs=F,
-            desc=f"three operations: {SEQ_OPS[first]}, then two symbolic choices over {SEQ_OPS} (fragmented reads answered in 1, 2 and 3 fragments at connection size 100), "
-                 "started 0/3/7 draws before the wrap: no count repeated back-to-back")
+    for third in (0, 2):
+        REG.add(f"A/triples/{SEQ_OPS[first]}+any+{SEQ_OPS[third]}", _mk_triple(first), pre=lambda o2, o3, back, third=third: 0 <= o2 < len(SEQ_OPS) and o3 == third and 0 <= back < 3,
+                timeout=900, weight=2, tier="quick" if (SEQ_OPS[first] in ("frag1", "frag2", "frag3", "read2") and third == 0) else "thorough", funcs=F,
+                desc=f"three operations: {SEQ_OPS[first]}, a symbolic choice over {SEQ_OPS} (fragmented reads answered in 1, 2 and 3 fragments at connection size 100), then {SEQ_OPS[third]}; "
+                     "started 0/3/7 draws before the wrap: no count repeated back-to-back")
